@@ -600,7 +600,14 @@ fn debug_text(b: &DispatcherBuilder<'static, 'static>) -> String {
     }
 }
 
-fn add_sys(b: &mut DispatcherBuilder<'static, 'static>, r: &Reg, rec: &Arc<Recorder>, h: &mut Handles) {
+/// the consuming builder methods (with, with_batch, with_barrier, with_thread_local, with_pool) are the same
+/// registrations in another style: every other level (by the parity of its length) is built with them
+fn via(b: &mut DispatcherBuilder<'static, 'static>, f: impl FnOnce(DispatcherBuilder<'static, 'static>) -> DispatcherBuilder<'static, 'static>) {
+    let old = std::mem::replace(b, DispatcherBuilder::new());
+    *b = f(old);
+}
+
+fn add_sys(b: &mut DispatcherBuilder<'static, 'static>, r: &Reg, rec: &Arc<Recorder>, h: &mut Handles, ws: bool) {
     if let Reg::Sys { tag, name, deps, reads, writes, time, kind } = r {
         let deps: Vec<&str> = deps.iter().map(|s| s.as_str()).collect();
         let runs = Arc::new(AtomicU64::new(0));
@@ -613,11 +620,11 @@ fn add_sys(b: &mut DispatcherBuilder<'static, 'static>, r: &Reg, rec: &Arc<Recor
                     acc: HAccessor { tag: *tag, reads: reads.clone(), writes: writes.clone(), rec: rec.clone() },
                     time: *time, state, runs,
                 };
-                b.add(s, name, &deps);
+                if ws { via(b, |x| x.with(s, name, &deps)) } else { b.add(s, name, &deps) }
             }
             SysKind::Menu(m) => {
                 macro_rules! m { ($($k:expr),*) => { match *m as usize {
-                    $( $k => b.add(MSys::<$k> { tag: *tag, time: *time, rec: rec.clone(), runs }, name, &deps), )*
+                    $( $k => { let s = MSys::<$k> { tag: *tag, time: *time, rec: rec.clone(), runs }; if ws { via(b, |x| x.with(s, name, &deps)) } else { b.add(s, name, &deps) } }, )*
                     _ => panic!("menu index") } } }
                 m!(0, 1, 2, 3, 4, 5, 6, 7, 8)
             }
@@ -628,14 +635,16 @@ fn add_sys(b: &mut DispatcherBuilder<'static, 'static>, r: &Reg, rec: &Arc<Recor
 fn add_batch(
     b: &mut DispatcherBuilder<'static, 'static>,
     inner: DispatcherBuilder<'static, 'static>,
-    tag: u32, name: &str, deps: &[String], time: u8, count: u32, ctl: CtlKind, rec: &Arc<Recorder>,
+    tag: u32, name: &str, deps: &[String], time: u8, count: u32, ctl: CtlKind, rec: &Arc<Recorder>, ws: bool,
 ) {
     let deps: Vec<&str> = deps.iter().map(|s| s.as_str()).collect();
     macro_rules! m { ($($k:expr),*) => { match ctl.menu as usize {
         $( $k => if ctl.multi {
-                    b.add_batch(MultiDispatcher::new(Multi::<$k> { tag, count, rec: rec.clone() }), inner, name, &deps)
+                    let c = MultiDispatcher::new(Multi::<$k> { tag, count, rec: rec.clone() });
+                    if ws { via(b, |x| x.with_batch(c, inner, name, &deps)) } else { b.add_batch(c, inner, name, &deps) }
                 } else {
-                    b.add_batch(Ctl::<$k> { tag, count, time, rec: rec.clone() }, inner, name, &deps)
+                    let c = Ctl::<$k> { tag, count, time, rec: rec.clone() };
+                    if ws { via(b, |x| x.with_batch(c, inner, name, &deps)) } else { b.add_batch(c, inner, name, &deps) }
                 }, )*
         _ => panic!("ctl menu index") } } }
     m!(0, 1, 2, 3, 4, 5)
@@ -647,24 +656,26 @@ fn build_level(
     #[cfg(feature = "parallel")] pool: Option<&Arc<rayon::ThreadPool>>,
 ) -> Option<DispatcherBuilder<'static, 'static>> {
     let mut b = DispatcherBuilder::new();
+    let ws = regs.len() % 2 == 1;
     #[cfg(feature = "parallel")]
-    if let Some(p) = pool { b.add_pool(p.clone()); }
+    if let Some(p) = pool { if ws { via(&mut b, |x| x.with_pool(p.clone())) } else { b.add_pool(p.clone()) } }
     for r in regs {
         match r {
-            Reg::Barrier => { b.add_barrier(); out.calls += 1; }
+            Reg::Barrier => { if ws { via(&mut b, |x| x.with_barrier()) } else { b.add_barrier() } out.calls += 1; }
             Reg::Tl { tag, reads, writes } => {
                 let runs = Arc::new(AtomicU64::new(0));
                 out.handles.runs.insert(*tag, runs.clone());
                 let state = Arc::new(AtomicU64::new(*tag as u64));
                 out.handles.states.insert(*tag, state.clone());
-                b.add_thread_local(HTl {
+                let t = HTl {
                     tag: *tag, reads: reads.clone(), writes: writes.clone(), rec: rec.clone(),
                     state, runs, _not_send: PhantomData,
-                });
+                };
+                if ws { via(&mut b, |x| x.with_thread_local(t)) } else { b.add_thread_local(t) }
                 out.calls += 1;
             }
             Reg::Sys { .. } => {
-                let res = catch_unwind(AssertUnwindSafe(|| add_sys(&mut b, r, rec, &mut out.handles)));
+                let res = catch_unwind(AssertUnwindSafe(|| add_sys(&mut b, r, rec, &mut out.handles, ws)));
                 if let Err(p) = res {
                     out.err = Some(classify(&payload_string(&p)));
                     return None;
@@ -677,7 +688,7 @@ fn build_level(
                 #[cfg(not(feature = "parallel"))]
                 let ib = build_level(inner, *tag, rec, out)?;
                 let res = catch_unwind(AssertUnwindSafe(|| {
-                    add_batch(&mut b, ib, *tag, name, deps, *time, *count, *ctl, rec)
+                    add_batch(&mut b, ib, *tag, name, deps, *time, *count, *ctl, rec, ws)
                 }));
                 if let Err(p) = res {
                     out.err = Some(classify(&payload_string(&p)));
